@@ -26,7 +26,7 @@ from ..evidence import Run, canon_hash
 
 PID = "C16"
 SHARDS = {"quick": 8, "thorough": 16}
-SHARD_TIMEOUT = {"quick": 900, "thorough": 3000}
+SHARD_TIMEOUT = {"quick": 900, "thorough": 7200}
 N = {"quick": 1200, "thorough": 36000}
 
 MECH_NAME = "model-check-name-consumed-by-first-to_check"
@@ -47,7 +47,14 @@ def new_run():
          "documented in docs/source/dataframe_models.md",
          "plain annotations only (numpy 2.5 sandbox cannot build Series[...] / "
          "Index[...] models): no index fields",
-         "fingerprint / snapshot code trusted"])
+         "fingerprint / snapshot code trusted",
+         "not judged (counted as undecided:*): order of checks inside one "
+         "component, which error eager mode reports first, column order after "
+         "a field override, schema name when Config subclasses the parent's "
+         "Config, Config.metadata, whether a regex-designated check applies "
+         "to a non-string column name (match on str(name) or never: both "
+         "accepted), the cls a custom method receives when inherited, what a "
+         "failing validate leaves on the model's cached schema (C05)"])
 
 
 # ------------------------------------------------------------ fingerprints
@@ -361,6 +368,19 @@ def one_case(run, rng, backend=None, prog=None):
                 run.count("config_extra:" + k)
 
     flats = [P.resolve(prog, i) for i in range(ncls)]
+    # the input classes the repaired defects live in
+    for i, fl in enumerate(flats):
+        ccs = [cc for col in fl["columns"] for cc in col["custom_checks"]]
+        if any(cc["explicit_name"] and cc["inherited"]
+               for cc in ccs + fl["df_checks"]):
+            run.count("class:inherits-explicitly-named-check")
+        if any(d["by"] == "field" and len(d["targets"]) >= 2
+               for d in prog["classes"][i]["checks"]):
+            run.count("class:check-designates-several-fieldinfos")
+        if any(not isinstance(col["name"], str) for col in fl["columns"]) \
+                and any(d["regex"] for ci in P.chain(prog, i)
+                        for d in prog["classes"][ci]["checks"]):
+            run.count("class:regex-check-and-non-str-column-name")
     log = []
     recorded = {}          # class index -> (schema object, ident fingerprint)
     witness0 = {"program": prog, "ann_variant": variant}
@@ -582,22 +602,25 @@ def run(run, ctx):
         one_case(run, ctx.rng(PID, i))
 
 
-# about 1/4 of what the quick tier observes on the unchanged tree (seed 0);
-# the thorough tier scales with its number of cases
+# about 1/4 of the minimum the quick tier observes over seeds 0,1,2,3,12345 on
+# a tree where the property holds; the thorough tier scales with its number
+# of cases
 FLOORS_QUICK = {
-    "struct_compared:pandas": 430, "struct_compared:polars": 300,
-    "struct_equal": 500, "to_schema_stable_checked": 750,
+    "struct_compared:pandas": 450, "struct_compared:polars": 290,
+    "struct_equal": 750, "to_schema_stable_checked": 750,
     "twin_order_compared": 700, "ancestor_unchanged_checked": 1900,
-    "other_class_unchanged_checked": 850,
-    "validate_pair:pandas:eager": 1250, "validate_pair:pandas:lazy": 1200,
-    "validate_pair:polars:eager": 850, "validate_pair:polars:lazy": 850,
-    "verdict_equal": 4000, "validate_via_Model(df)": 500,
-    "field:override": 270, "field:alias": 500, "field:regex": 90,
-    "field:optional": 280, "method:checks:override": 170,
-    "method:df_checks:override": 75, "method:parsers:override": 40,
-    "config:subclass": 70, "config:plain": 360,
-    "outcome:ok": 1700, "outcome:SchemaError": 1000,
-    "outcome:SchemaErrors": 1000, "custom_method_called:check": 6000,
+    "other_class_unchanged_checked": 900,
+    "validate_pair:pandas:eager": 1050, "validate_pair:pandas:lazy": 1050,
+    "validate_pair:polars:eager": 690, "validate_pair:polars:lazy": 690,
+    "verdict_equal": 3500, "validate_via_Model(df)": 750,
+    "field:override": 260, "field:alias": 490, "field:alias:int": 40,
+    "field:regex": 95,
+    "field:optional": 270, "method:checks:override": 170,
+    "method:df_checks:override": 70, "method:parsers:override": 40,
+    "method:check:by-fieldinfo": 100, "method:check:regex": 130,
+    "config:subclass": 60, "config:plain": 360,
+    "outcome:ok": 1450, "outcome:SchemaError": 850,
+    "outcome:SchemaErrors": 880, "custom_method_called:check": 4500,
     "class_depth:3": 180,
 }
 
